@@ -10,7 +10,7 @@ THEOREMS = ["Mesa.Cells." + t for t in (
     "C06_remove_leaves_cell", "C06_direction_map_generated", "C06_invariant_all_histories",
     "C06_histories_with_connection_edits", "C06_collection_views", "C06_select_spec", "C06_select_random_spec",
     "C06_hex_direction_names", "C06_voronoi_default_capacity",
-    "C06_assignment_exact", "C06_unplace_and_fixed_exact", "C06_select_random_empty_exact",
+    "C06_assignment_exact", "C06_unplace_and_fixed_exact", "C06_select_random_empty_exact", "C06_clear_cell",
     "C18_cells_setCell_reject_unchanged", "C18_cells_moveTo_reject_unchanged", "C18_cells_moveRelative_reject_unchanged",
     "C18_cells_gridMove_reject_unchanged", "C18_cells_rejected_call_is_noop")]
 COUNTS = {"quick": 1500, "thorough": 100000}
@@ -40,7 +40,10 @@ RULE = ("random histories on random spaces: Moore/von Neumann grids with 1-3 axe
         "select_random_empty_cell with scripted draws (misses then a hit), select_random_cell, the CellCollection API (cells, agents, len, "
         "in, [cell], select with filter_func none/is_empty/occupied/is_full/not full and at_most inf/int (also <= 0)/float fractions/"
         "floats > 1, chained, select_random_cell / select_random_agent with 0-3 scripted draws) on all_cells, empties, "
-        "get_neighborhood(r, ic), neighborhood and selections of these — ~12% of the ops}, every third scenario also with "
+        "get_neighborhood(r, ic), neighborhood and selections of these — ~12% of the ops; ~4%: `cell.agents` handed out and cleared (a copy: "
+        "nothing may change) / a cell emptied by `for a in cell.agents: a.remove()`}; 45% of the networks are not simple (self loops, repeated / "
+        "antiparallel edges, MultiGraph / MultiDiGraph), capacity 0 in 1 of 7 headers, 40% of the default-capacity Voronoi grids are also given a "
+        "`capacity` argument (overwritten by the function); every third scenario also with "
         "Cell.connect / Cell.disconnect edits (existing, new and default keys, non-cells) at the cells of movable agents; the full observation (agent.cell, "
         "cell.agents, is_empty, is_full, empty layer, cell.empty, empties, space.agents, model.agents) is compared after every op; "
         "non-trivial = at least 3 accepted placements and one rejected call or emptiness query; distinct = distinct op-line sequences")
